@@ -455,8 +455,8 @@ def check_base64_stream(ctx, d, exe):
     hcases = []
     for name in (b"utf-8", b"ISO-8859-1"):
         for nl in (b"\r\n", b"\n"):
-            for sc, mc in ((0, 76), (9, 76), (30, 76), (0, 40), (5, 100), (0, 1000)):
-                for n in sorted(set([0, 1, 2, 3, 10, 30, 31, 32, 33, 34, 35, 36, 45, 46, 47, 48, 60, 90, 91, 92, 93, 200] + [rng.randrange(0, 300) for _ in range(2)])):
+            for sc, mc in ((0, 76), (9, 76), (30, 76), (0, 40), (5, 100), (0, 1000), (60, 76), (62, 76), (66, 76), (90, 76)):
+                for n in sorted(set([0, 1, 2, 3, 10, 30, 33, 34, 36, 45, 46, 47, 48, 60, 90, 93, 200] + [rng.randrange(0, 300) for _ in range(2)])):
                     hcases.append((name, text_payload(rng, n), sc, mc, nl))
     exprs = ['(xh (string->utf8 (base64-encode-header (utf8->string (hx "%s")) (utf8->string (hx "%s")) %d %d (utf8->string (hx "%s")))))' % (hexs(nm), hexs(pl), sc, mc, hexs(nl))
              for nm, pl, sc, mc, nl in hcases]
@@ -468,6 +468,9 @@ def check_base64_stream(ctx, d, exe):
         ok_spec = False
         if i and i[:1] == "x" and not bad(i):
             hdr = unhex(i[1:])
+            folded = hdr.startswith(nl + b"\t")          # no room for a quantum on the first line: the text starts with a fold
+            if folded:
+                hdr = hdr[len(nl) + 1:]
             words = hdr.split(nl + b"\t")
             pre, payload, ok_spec = b"=?" + nm + b"?B?", b"", True
             for k_, wd in enumerate(words):
@@ -475,7 +478,7 @@ def check_base64_stream(ctx, d, exe):
                     ok_spec = False
                     break
                 body = wd[len(pre):-2]
-                if len(body) % 4 or any(c not in B64_ALPHA + b"=" for c in body) or (len(wd) + (sc if k_ == 0 else 0)) > mc:
+                if len(body) % 4 or any(c not in B64_ALPHA + b"=" for c in body) or (len(pl) > 0 and (len(wd) + (sc if k_ == 0 and not folded else 0)) > mc):
                     ok_spec = False
                     break
                 payload += pyb64.b64decode(body)
@@ -917,6 +920,41 @@ def check_accessor_exports(ctx, table):
     ctx.note("accessor table: %d rows regenerated from lib/scheme/bytevector.stub (%d ieee); %d accessor names exported by bytevector.sld" % (len(table), sum(1 for e in table if e["kind"] in ("KF32", "KF64")), len(names)))
 
 
+UV_LIBS = "(srfi 160 base) (srfi 160 prims) (only (srfi 160 f8) make-f8vector) (only (srfi 160 f16) make-f16vector)"
+UV_IMPORTS = IMPORTS + "\n(import " + UV_LIBS + ")"
+
+
+def check_uvectors(ctx, d, dasan, rows):
+    """SRFI 160 accessors (rows regenerated from uvprims.stub): every index -1 .. len+1 and far ones; outside 0 <= i < len an error,
+    inside: ref of a fresh vector is zero, set! changes exactly element i"""
+    exprs, meta = [], []
+    for r in rows:
+        t = r["elem"]
+        val = "(make-rectangular 1.0 2.0)" if t.startswith("c") else ("1.0" if t == "f8" else "1.5" if t.startswith("f") else "1")
+        for n in (0, 1, 3):
+            for k in list(range(-1, n + 2)) + [1 << 31, 1 << 32, -(1 << 40)]:
+                if not r["set"]:
+                    exprs.append("(zero? (%s (make-%svector %d 0) %d))" % (r["name"], t, n, k))
+                else:
+                    exprs.append("(let ((v (make-%svector %d 0))) (%s v %d %s) (let lp ((i 0) (nz 0)) (if (= i %d) (list (equal? (%svector-ref v %d) %s) nz) "
+                                 "(lp (+ i 1) (if (zero? (%svector-ref v i)) nz (+ nz 1))))))" % (t, n, r["name"], k, val, n, t, k, val, t))
+                meta.append((r, n, k))
+    for label, dd in (("default", d), ("asan", dasan)):
+        if dd is None:
+            continue
+        io = scm.run_cases(dd, exprs, prelude_extra=PRELUDE, imports=UV_IMPORTS, timeout=200, chunk=1000)
+        for e, (r, n, k), i in zip(exprs, meta, io):
+            ctx.count(1, key=("uv", label, r["name"], n, k), nontrivial=True)
+            rp = "echo '(import (scheme base) (scheme write) (scheme complex) %s) (write %s)' | chibi-scheme /dev/stdin%s" % (UV_LIBS, e, "" if label == "default" else "   # build variant: asan")
+            inb = 0 <= k < n
+            if bad(i):
+                ctx.violation("uvector:crash:" + r["name"], input=e, observed=i, build=label, replay=rp)
+            elif not inb and not i.startswith("ERR"):
+                ctx.violation("uvector:out-of-bounds:%s:%s" % (r["name"], "i<0" if k < 0 else "i>=len"), input=e, expected="error (index %d not in 0..%d)" % (k, n - 1), observed=i, build=label, replay=rp)
+            elif inb and i != ("(#t 1)" if r["set"] else "#t"):
+                ctx.violation("uvector:value:" + r["name"], input=e, expected="(#t 1)" if r["set"] else "#t", observed=i, build=label, replay=rp)
+
+
 # ------------------------------------------------------------------------------------------ JSON
 MAXFIX = (1 << 62) - 1
 ESC_CHARS = [0x22, 0x5c, 0x2f, 8, 12, 10, 13, 9, 0, 1, 0x1f, 0x20, 0x7e, 0x7f, 0x80, 0xff, 0x7ff, 0x800, 0xd7ff, 0xe000, 0xfffd, 0xffff,
@@ -1141,6 +1179,7 @@ def run(ctx):
                        "a case is distinct by (operation, input bytes, offset, value) and non-trivial unless the input is empty")
     from gen import c19_accessors
     table, _others = c19_accessors.regen(ctx)
+    uvrows = c19_accessors.regen_uv(ctx)
     check_accessor_exports(ctx, table)
     ctx.coq_obligations("Properties_C19")
     d = ctx.build("default")
@@ -1173,6 +1212,7 @@ def run(ctx):
     dasan = ctx.build("asan"); t4 = time.time()
     if on("acc"):
         check_accessors(ctx, d, exe, table, dasan)
+        check_uvectors(ctx, d, dasan, uvrows)
     t3 = time.time()
     if on("json"):
         check_json(ctx, d, exe, dasan)
@@ -1180,8 +1220,8 @@ def run(ctx):
     ctx.note("wall seconds: base64 %.1f, base64 ports/header %.1f, qp + entry points %.1f, uri + asan build %.1f, accessors (default+asan) %.1f, json %.1f" % (t1 - t0, t1b - t1, t2 - t1b, t4 - t2, t3 - t4, t5 - t3))
     ctx.assume("exported entry points NOT modelled and NOT exercised: (chibi csv) (whole library), (chibi json) make-json-reader, (chibi uri) uri->string / string->uri / "
                "string->path-uri / make-uri / uri-with-* / uri-resolve / uri-query->alist / uri-alist->query (the last two only call uri-encode / uri-decode, which are modelled), "
-               "(scheme bytevector) string->utf16 / utf16->string / string->utf32 / utf32->string / bytevector->uint-list and friends, SRFI 160 uniform vectors (uvprims.stub), "
-               "mini-floats; JSON floats are compared by class only")
+               "(scheme bytevector) string->utf16 / utf16->string / string->utf32 / utf32->string / bytevector->uint-list and friends, the SRFI 160 library above its primitive "
+               "accessors (those ARE swept: bounds, zero, set-one-element), mini-float conversions (f8/f16 values beyond 1.0/1.5); JSON floats are compared by class only")
     ctx.assume("every exported entry point of (chibi base64) and (chibi quoted-printable) is exercised: bytevector, string, binary-port, textual-port, current-output-port and "
                "*-header variants; (chibi json): string->json, json->string, json-read and json-write on string ports; (scheme bytevector): every accessor the stub defines "
                "(regenerated table) plus the generic uint/sint ones")
